@@ -224,15 +224,18 @@ Proof. exact (run_incomplete digest H deq zcomp zdecomp zl unzl deq_refl z_round
    (checkFileName accepts them, no NUL, at most 255 bytes), no two entries at one place, parents
    first, one top-level name per path id, a clean destination path, and nothing in the way at the
    destination.  Then the transfer ALWAYS completes, for uploads and downloads, protocol 1 to 4,
-   plain and directory mode, overwrite on and off, every frame-size schedule — and the names are
-   the names as sent. *)
+   plain and directory mode, overwrite on and off, every frame-size schedule; the names are the
+   names as sent; and the destination differs from what it was in the entries' own places only
+   (so below the reported names it IS the source tree, nothing more). *)
 Theorem C01_transfer_ready : forall c d ess f0,
   tr_table_ok c -> Forall (fun es => bytes_ok (te_data (fst es)) = true) ess ->
   stat f0 d = SFound Dir -> Forall tr_comp_ok d -> tr_ready c d f0 (map fst ess) ->
   forall fuel, (tr_fuel digest zcomp c ess <= fuel)%nat ->
-  tr_outcome_ok c d f0 ess (tr_run digest H deq zcomp zdecomp zl unzl fuel c d ess f0) /\
-  ss_names (cf_s digest (tr_run digest H deq zcomp zdecomp zl unzl fuel c d ess f0)) =
-    fold_left tr_add_name (map (tr_key c) (map fst ess)) [].
+  let cf := tr_run digest H deq zcomp zdecomp zl unzl fuel c d ess f0 in
+  tr_outcome_ok c d f0 ess cf /\
+  ss_names (cf_s digest cf) = fold_left tr_add_name (map (tr_key c) (map fst ess)) [] /\
+  (forall q, q <> [] -> (forall e, In e (map fst ess) -> q <> tr_leaf_of c d e) ->
+     lookup (st_fs (rs_st (cf_r digest cf))) q = lookup f0 q).
 Proof. exact (transfer_ready digest H deq zcomp zdecomp zl unzl deq_refl z_roundtrip z_bytes zl_roundtrip zl_bytes). Qed.
 End C01_transfer.
 
